@@ -1,8 +1,12 @@
 """C02 - every solver honours the minimiser contract: (M) TLC on SolverLoop.tla (line-search and best-state families, all
 evaluation-outcome sequences), (V) runs of all registered solvers on registered/random objectives with random budgets and
 parameters, recorded through a counting wrapper and validated by TLC against MinimizerTrace.tla."""
+import os
+from concurrent.futures import ThreadPoolExecutor
+
 import common
 import solver_common
+import trace
 from common import CheckError
 
 LEVEL = "exploration"
@@ -14,6 +18,8 @@ def run(rep, tier):
     total, stats, solvers, nevals = solver_common.drive_and_validate(rep, "C02", nproc, nsweep, 0, 0)
     if not rep.violations and (total < nproc * nsweep * 0.9 or len(solvers) < 35):
         raise CheckError("solver sweep coverage too small: %d runs, %d solvers" % (total, len(solvers)))
+    nconstrained = constrained_solvers(rep, tier)
+    rep.add(constrained_solver_runs=nconstrained)
     rep.add(traces_validated_against_impl=total, evaluations=total, distinct_nontrivial=total, statuses=stats, solvers=len(solvers),
             aggregated_evaluations=nevals,
             rule="one run = (solver, objective, x0 radius 1e-3..10, epsilon 1e-10..1e-2, max_evals in {10..5000}, a third of the runs with "
@@ -24,7 +30,40 @@ def run(rep, tier):
                "driver from the counting wrapper's own records; TLC checks provenance, counters, status protocol, ordering and budget arithmetic",
                "the budget clause is evaluated for runs whose solver parameters are at their defaults",
                "gradient-sampling solvers are made reproducible through the NANO_VERIF default seed hook",
-               "the constrained solvers (penalty, augmented Lagrangian) are exercised by C05's driver: return contract, counters and the budget clause (max_outer_iters inner solves, each within max_evals + 1100 + 8 n)")
+               "the constrained solvers (penalty, augmented Lagrangian) run on unconstrained functions in the sweep and on functions with constraints through C05's driver (Solve records validated against PenaltyTrace.tla: return contract, counters, budget of max_outer_iters inner solves each within max_evals + 1100 + 8 n)")
+
+
+def constrained_solvers(rep, tier):
+    """the three constrained solvers on functions that HAVE constraints (random linear / quadratic programs with random constraint
+    kinds): the return contract of C02 (dimension, reported value = objective re-evaluated at the returned point, stored constraint
+    values, finiteness, counters, budget per inner solve) decided by TLC from the Solve records of C05's driver (PenaltyTrace.tla)"""
+    work = common.workdir("C02")
+    exe = common.build_harness("penalty_driver")["penalty_driver"]
+    nproc, ns = (8, 60) if tier == "quick" else (16, 600)
+
+    def drive(i):
+        out = os.path.join(work, "constrained_%d.ndjson" % i)
+        rc, o, _ = common.run([exe, out, str(common.seed() * 1000 + 700 + i), "0", str(ns)], timeout=3000, check=False)
+        rs = common.read_ndjson(out) if os.path.exists(out) else []
+        crashed = rc != 0 or not rs or rs[-1].get("case") != -1
+        bad = [x for x in rs if x["e"] in ("Abort", "Inexact")]
+        rs = [x for x in rs if x["e"] == "Solve"]
+        acc, rejects, _ = trace.validate_independent("PenaltyTrace", "PenaltyTrace.cfg", os.path.join(common.SPEC, "penalty"), rs, out + ".tlc",
+                                                     tag="c02c_%d" % i)
+        return crashed, o, bad, acc, rejects
+
+    with ThreadPoolExecutor(nproc) as ex:
+        results = list(ex.map(drive, range(nproc)))
+    total = 0
+    for crashed, o, bad, acc, rejects in results:
+        if crashed:
+            rep.violation("constrained-solver driver crashed", payload={"output": o[-3000:]})
+        for b in bad[:3]:
+            rep.violation("constrained solver threw: %s" % b, payload=b)
+        for ev in rejects:
+            rep.violation("constrained solver violates the minimiser contract: %s" % str(ev)[:600], payload=ev)
+        total += acc
+    return total
 
 
 def replay(rep, path):
